@@ -4,7 +4,9 @@ set -u
 P=$1; shift
 cd /repo && git apply "$P" || { echo "patch does not apply"; exit 2; }
 cd /verif
+BK=$(mktemp -d); cp -a evidence/. $BK/    # evidence of a run against a seeded change must not replace the committed one
 for c in "$@"; do
   /venv/bin/python harness/check.py $c --tier quick 2>&1 | grep -E "VIOLATION|KNOWN-FINDING|^\[C|INFRA|Traceback" 
 done
 git -C /repo checkout -- . ; git -C /repo status --short | head -3
+cp -a $BK/. evidence/; rm -rf $BK
